@@ -149,6 +149,7 @@ class Sim:
         self.pct_points = ()
         self.script = []
         self.script_actors = []
+        self.other_fs = None         # directory that counts as a different file system (the system temp dir)
         self.procs = None            # isolate.ProcessStates: per simulated process copy of the library's module state
         self.sticky_den = 8          # "sticky": the running actor is pre-empted with probability 1/sticky_den per step
         self.locks = LockTable()
@@ -541,9 +542,30 @@ def _sim_sleep(seconds):
         return REAL["sleep"](seconds)
     if a.dead:
         raise Killed()
+    if float(seconds) < 0:
+        raise ValueError("sleep length must be non-negative")
     sim.stats["sleeps"] += 1
     a.attrs["slept"] = a.attrs.get("slept", 0.0) + float(seconds)
     sim.yield_point(a, "sleep", round(float(seconds), 6), cost=max(0.0, float(seconds)))
+
+
+def _mk_rename(name):
+    def wrapper(src, dst, *args, **kwargs):
+        sim, a = _actor()
+        if a is not None and sim.other_fs:
+            try:
+                s_in = os.path.abspath(os.fspath(src)).startswith(sim.other_fs + os.sep)
+                d_in = os.path.abspath(os.fspath(dst)).startswith(sim.other_fs + os.sep)
+            except TypeError:
+                s_in = d_in = False
+            if s_in != d_in:
+                # the system temporary directory is another mount than the data home: rename cannot cross it
+                sim.stats["fault:cross-device-rename"] += 1
+                import errno
+                raise OSError(errno.EXDEV, "Invalid cross-device link", os.fspath(src), None, os.fspath(dst))
+        return REAL[name](src, dst, *args, **kwargs)
+    wrapper.__name__ = name
+    return wrapper
 
 
 def _sim_getpid():
@@ -767,6 +789,9 @@ def install():
                 hash_new=hashlib.new, connect=socket.socket.connect)
     REAL.update(getpid=os.getpid, time=time.time, monotonic=time.monotonic, perf_counter=time.perf_counter,
                 urandom=os.urandom)
+    REAL["rename"], REAL["replace"] = os.rename, os.replace
+    os.rename = _mk_rename("rename")
+    os.replace = _mk_rename("replace")
     os.getpid = _sim_getpid
     REAL["utime"] = os.utime
     time.time = _mk_clock("time", CLOCK_BASE)
